@@ -135,19 +135,10 @@ pub fn fsck_check(w: &World, p: &Parsed, flux: &[NodeId]) -> Result<(), Violatio
         }
         if f.kind == "lost-cluster" {
             // chains of in-flux files whose entry still says "no cluster" are unreferenced by design until flush
-            let mut budget = 0usize;
-            for n in flux {
-                let path = units(&w.model.path_of(*n));
-                if let Some(oi) = p.find(&path) {
-                    if p.objs[oi].first_cluster == 0 && !w.model.nodes[*n].content.is_empty() {
-                        budget += 1;
-                    }
-                    // truncate-then-rewrite: entry still points at a freed chain while a new one exists
-                    if p.findings.iter().any(|x| x.kind == "link-to-free" && x.subj.iter().any(|s| *s == refdec::path_str(&path))) {
-                        budget += 1;
-                    }
-                }
-            }
+            // one chain per open file with pending changes: its entry (first cluster) is only written at flush, so
+            // until then the chain it really owns may be unreferenced (entry says "none", or names an older chain
+            // that was freed by truncate and possibly re-used since)
+            let budget = flux.iter().filter(|n| !w.model.nodes[**n].content.is_empty()).count();
             let lost: BTreeSet<u32> = p.lost.iter().copied().collect();
             let mut pointed: BTreeSet<u32> = BTreeSet::new();
             for c in &p.lost {
@@ -160,6 +151,7 @@ pub fn fsck_check(w: &World, p: &Parsed, flux: &[NodeId]) -> Result<(), Violatio
             if heads <= budget {
                 continue;
             }
+            return Err(viol("C03", f.kind, format!("{} ({} unreferenced chain(s), {} open file(s) with deferred entry update)", f.detail, heads, budget), w.step_no));
         }
         return Err(viol("C03", f.kind, f.detail.clone(), w.step_no));
     }
@@ -237,14 +229,6 @@ pub fn lib_tree_check(w: &mut World, root: &FDir, open: &[NodeId], prop: &str, w
             }
         }
     }
-    // the walk itself read every closed non-empty file: with access-date updating on, that stamps them
-    if w.cfg.access_date {
-        for n in w.model.files() {
-            if !open.contains(&n) && !w.model.nodes[n].content.is_empty() {
-                w.model.nodes[n].accessed = now.date();
-            }
-        }
-    }
     if with_times {
         let by_path: BTreeMap<Vec<Vec<u16>>, &LibItem> = items.iter().map(|i| (i.path.clone(), i)).collect();
         for n in w.model.live_nodes() {
@@ -264,6 +248,14 @@ pub fn lib_tree_check(w: &mut World, root: &FDir, open: &[NodeId], prop: &str, w
             }
             if it.accessed != node.accessed {
                 return Err(viol("C18", "accessed-differs", format!("{}: {:?} vs model {:?}", w.model.path_string(n), it.accessed, node.accessed), w.step_no));
+            }
+        }
+    }
+    // the walk itself read every closed non-empty file: with access-date updating on, that stamps them
+    if w.cfg.access_date {
+        for n in w.model.files() {
+            if !open.contains(&n) && !w.model.nodes[n].content.is_empty() {
+                w.model.nodes[n].accessed = now.date();
             }
         }
     }
@@ -317,7 +309,13 @@ pub fn diff_audit(w: &mut World, ctx: &PostCtx) -> Result<(), Violation> {
     }
     let p = &*ctx.before;
     let g = &p.geo;
-    let touch: BTreeSet<&Vec<Vec<u16>>> = ctx.out.touch_paths.iter().collect();
+    let mut touch: BTreeSet<&Vec<Vec<u16>>> = ctx.out.touch_paths.iter().collect();
+    // an open file with pending changes may still be described on disk by a stale entry (e.g. pointing at a chain it
+    // already gave back): what that entry claims cannot be held against other operations
+    let flux_paths: Vec<Vec<Vec<u16>>> = ctx.flux.iter().map(|n| units(&w.model.path_of(*n))).collect();
+    for fp in &flux_paths {
+        touch.insert(fp);
+    }
     let owners = slot_owners(p);
     let user_failure = matches!(&ctx.out.res, Err(e) if !matches!(e, E::Io(_) | E::IoOther(_) | E::NoSpace));
     let prop_region = if o.write_audit { "C11" } else if o.raw_diff { "C08" } else { "C11" };
@@ -434,7 +432,7 @@ pub fn diff_audit(w: &mut World, ctx: &PostCtx) -> Result<(), Violation> {
     }
     // FAT entry rules
     if o.fat_copies || o.raw_diff || o.write_audit {
-        let touch_objs: BTreeSet<usize> = ctx.out.touch_paths.iter().filter_map(|t| p.find(t)).collect();
+        let touch_objs: BTreeSet<usize> = ctx.out.touch_paths.iter().chain(flux_paths.iter()).filter_map(|t| p.find(t)).collect();
         for c in fat_entries {
             if u64::from(c) >= g.fat_capacity() {
                 continue;
@@ -482,7 +480,11 @@ pub fn write_audit(w: &mut World, ctx: &PostCtx, writes: &[WriteRec]) -> Result<
     let Some(before_store) = &ctx.before_store else { return Ok(()) };
     let p = &*ctx.before;
     let g = &p.geo;
-    let touch: BTreeSet<&Vec<Vec<u16>>> = ctx.out.touch_paths.iter().collect();
+    let mut touch: BTreeSet<&Vec<Vec<u16>>> = ctx.out.touch_paths.iter().collect();
+    let flux_paths: Vec<Vec<Vec<u16>>> = ctx.flux.iter().map(|n| units(&w.model.path_of(*n))).collect();
+    for fp in &flux_paths {
+        touch.insert(fp);
+    }
     let step = w.step_no;
     for wr in writes {
         if wr.len == 0 {
